@@ -1,6 +1,7 @@
 package main
 
 import (
+	"strings"
 	"bytes"
 	"context"
 	"errors"
@@ -15,22 +16,42 @@ import (
 )
 
 type scriptedSecrets struct {
-	secs map[string][]byte
-	errs map[string]bool
-	mu   sync.Mutex
-	n    int
-	ctxs []context.Context
+	secs    map[string][]byte
+	errs    map[string]bool
+	mu      sync.Mutex
+	n       int
+	ctxs    []context.Context
+	hold    map[string]chan struct{} // a lookup for this address waits here
+	entered chan string              // announces every lookup (when non-nil)
 }
 
 func (s *scriptedSecrets) RADIUSSecret(ctx context.Context, a net.Addr) ([]byte, error) {
 	s.mu.Lock()
 	s.n++
 	s.ctxs = append(s.ctxs, ctx)
+	h := s.hold[a.String()]
 	s.mu.Unlock()
+	if s.entered != nil {
+		s.entered <- a.String()
+	}
+	if h != nil {
+		<-h
+	}
 	if s.errs[a.String()] {
 		return nil, errors.New("no secret")
 	}
 	return s.secs[a.String()], nil
+}
+
+// peers 0 and 1 share a host and differ in the port; peer 2 is another host
+func peerAddr(p int) string {
+	switch p {
+	case 0:
+		return "10.0.0.1:1000"
+	case 1:
+		return "10.0.0.1:2000"
+	}
+	return fmt.Sprintf("10.0.0.%d:1000", p)
 }
 
 type c06Event struct {
@@ -57,8 +78,8 @@ func runDispatch(c *Ctx, r *Rng, idx int) {
 		case 1:
 			errs[p] = 1
 		}
-		ss.secs[fmt.Sprintf("peer-%d", p)] = secs[p]
-		ss.errs[fmt.Sprintf("peer-%d", p)] = errs[p] == 1
+		ss.secs[peerAddr(p)] = secs[p]
+		ss.errs[peerAddr(p)] = errs[p] == 1
 	}
 	type started struct {
 		req     *radius.Request
@@ -156,7 +177,7 @@ func runDispatch(c *Ctx, r *Rng, idx int) {
 			d[3]++ // Length beyond the datagram
 		}
 		lastPkts = append(lastPkts, d)
-		cn.in <- fakePkt{d, fakeAddr(fmt.Sprintf("peer-%d", peer))}
+		cn.in <- fakePkt{d, fakeAddr(peerAddr(peer))}
 		req.Zs = append(req.Zs, Z(0), Z(int64(peer)))
 		req.Bs = append(req.Bs, d)
 		select {
@@ -167,7 +188,7 @@ func runDispatch(c *Ctx, r *Rng, idx int) {
 			t.I(1).I(int64(peer))
 			tPacket(t, st.req.Packet)
 			// request fields
-			if st.req.RemoteAddr.String() != fmt.Sprintf("peer-%d", peer) || st.req.LocalAddr.String() != cn.LocalAddr().String() ||
+			if st.req.RemoteAddr.String() != peerAddr(peer) || st.req.LocalAddr.String() != cn.LocalAddr().String() ||
 				!bytes.Equal(st.req.Secret, secs[peer]) || st.req.Context() == nil || st.req.Context() == context.Background() {
 				c.Fail("spec", "request", "fields", hx(d), fmt.Sprint(st.req.RemoteAddr, st.req.LocalAddr), "peer/local/secret/ctx", "the request carries the parsed packet, that secret, the peer and local addresses and the server context")
 			}
@@ -178,7 +199,7 @@ func runDispatch(c *Ctx, r *Rng, idx int) {
 				w = cn.writes[len(cn.writes)-1]
 			}
 			cn.mu.Unlock()
-			if w.from == nil || w.from.String() != fmt.Sprintf("peer-%d", peer) || !radius.IsAuthenticResponse(w.b, d, secs[peer]) {
+			if w.from == nil || w.from.String() != peerAddr(peer) || !radius.IsAuthenticResponse(w.b, d, secs[peer]) {
 				c.Fail("spec", "reply", "reply", hx(d), fmt.Sprintf("%x to %v", w.b, w.from), "authentic reply to the source address", "a reply written by the handler goes to the request's source with a valid response authenticator")
 			}
 			rq := Req{Name: "reply", Bs: [][]byte{d, secs[peer], []byte("ok")}, Zs: []string{Z(int64(replyCode)), Z(int64(peer))}}
@@ -217,6 +238,71 @@ func runDispatch(c *Ctx, r *Rng, idx int) {
 	c.Add(Case{Req: req, Impl: t.String(), Tag: tag})
 }
 
+// the datagram of one peer must still be that peer's when its goroutine gets to parse it, even if the
+// server has read further datagrams into its buffer in the meantime
+func runOverlap(c *Ctx, r *Rng) {
+	schedMu.Lock()
+	defer schedMu.Unlock()
+	sec := []byte("overlap")
+	hold := make(chan struct{})
+	ss := &scriptedSecrets{secs: map[string][]byte{peerAddr(0): sec, peerAddr(2): sec}, errs: map[string]bool{},
+		hold: map[string]chan struct{}{peerAddr(0): hold}, entered: make(chan string, 8)}
+	type got struct {
+		from string
+		id   byte
+		name string
+	}
+	gotc := make(chan got, 4)
+	cn := newFakeConn(0)
+	srv := &radius.PacketServer{SecretSource: ss, ErrorLog: log.New(io.Discard, "", 0),
+		Handler: radius.HandlerFunc(func(w radius.ResponseWriter, rq *radius.Request) {
+			gotc <- got{rq.RemoteAddr.String(), rq.Identifier, string(rq.Get(1))}
+		})}
+	done := make(chan error, 1)
+	go func() { done <- srv.Serve(cn) }()
+	mk := func(id byte, name string) []byte {
+		p := &radius.Packet{Code: 1, Identifier: id, Secret: sec}
+		copy(p.Authenticator[:], r.Bytes(16))
+		p.Add(1, []byte(name))
+		b, _ := p.Encode()
+		return b
+	}
+	nameA, nameB := fmt.Sprintf("alice-%d", r.Intn(1000)), fmt.Sprintf("bob-%d-%s", r.Intn(1000), strings.Repeat("x", r.Intn(20)))
+	a, b := mk(1, nameA), mk(2, nameB)
+	wait := func(addr string) bool {
+		select {
+		case x := <-ss.entered:
+			return x == addr
+		case <-time.After(3 * time.Second):
+			return false
+		}
+	}
+	cn.in <- fakePkt{a, fakeAddr(peerAddr(0))}
+	okA := wait(peerAddr(0)) // A's goroutine is parked in the secret lookup
+	cn.in <- fakePkt{b, fakeAddr(peerAddr(2))}
+	okB := wait(peerAddr(2)) // B has been read into the server's buffer and its goroutine started
+	close(hold)
+	res := map[string]got{}
+	for i := 0; i < 2; i++ {
+		select {
+		case g := <-gotc:
+			res[g.from] = g
+		case <-time.After(3 * time.Second):
+		}
+	}
+	ctx, cancel := context.WithTimeout(context.Background(), 3*time.Second)
+	srv.Shutdown(ctx)
+	cancel()
+	<-done
+	ga, gb := res[peerAddr(0)], res[peerAddr(2)]
+	if !okA || !okB || ga.id != 1 || ga.name != nameA || gb.id != 2 || gb.name != nameB {
+		c.Fail("spec", "PacketServer.Serve", "overlapping-datagrams", fmt.Sprintf("A=%x from %s, then B=%x from %s while A's secret lookup is pending", a, peerAddr(0), b, peerAddr(2)),
+			fmt.Sprintf("handler saw %+v and %+v", ga, gb), fmt.Sprintf("(%s id 1 %s) and (%s id 2 %s)", peerAddr(0), nameA, peerAddr(2), nameB),
+			"each handler receives the parse of the datagram its own peer sent")
+	}
+	c.Count("overlap", nameA+nameB)
+}
+
 func b2i(b bool) int64 {
 	if b {
 		return 1
@@ -226,13 +312,16 @@ func b2i(b bool) int64 {
 
 func init() {
 	props["C06"] = func(c *Ctx) {
-		c.Res.Rule = "histories against the real PacketServer on a fake PacketConn: datagrams from 3 peers (valid requests of every request code with few identifiers so that duplicates occur, exact retransmissions, forged Accounting/Disconnect/CoA requests, reply codes, garbage, over-long Length) interleaved with handler completions in random order; scripted SecretSource (secret / empty / error per peer), InsecureSkipVerify on and off; after each datagram the harness waits for the handler to start or for the datagram.done hook. Dispatch/drop decisions, request packet, dedup table size and the handler's reply are compared with the Coq model; request fields, reply destination and authenticator are checked directly. non-trivial = history with at least one concurrent or repeated key"
+		c.Res.Rule = "histories against the real PacketServer on a fake PacketConn: datagrams from 3 peers (two of them on one host with different ports; valid requests of every request code with few identifiers so that duplicates occur, exact retransmissions, forged Accounting/Disconnect/CoA requests, reply codes, garbage, over-long Length) interleaved with handler completions in random order; scripted SecretSource (secret / empty / error per peer), InsecureSkipVerify on and off; after each datagram the harness waits for the handler to start or for the datagram.done hook. Dispatch/drop decisions, request packet, dedup table size and the handler's reply are compared with the Coq model; request fields, reply destination and authenticator are checked directly; a separate scenario holds one datagram's secret lookup until the server has read the next datagram into its buffer and checks that each handler still receives its own peer's packet. non-trivial = history with at least one concurrent or repeated key"
 		r := c.Rng.Fork()
 		n := c.N(300, 6000)
 		for i := 0; i < n; i++ {
 			runDispatch(c, r, i)
 		}
+		for i := 0; i < c.N(10, 200); i++ {
+			runOverlap(c, r)
+		}
 		c.Flush()
-		c.RequireTags("history", "history-concurrent", "reply")
+		c.RequireTags("history", "history-concurrent", "reply", "overlap")
 	}
 }
